@@ -8,6 +8,7 @@ import (
 	"context"
 	"encoding/json"
 	"fmt"
+	"reflect"
 	"runtime"
 	"strconv"
 	"strings"
@@ -87,7 +88,7 @@ type CallEv struct {
 	Outs    []uint64
 	Err     error
 	PanicV  interface{}
-	CtxSeen int // 0 no ctx param, 1 the directive's context, 2 another context
+	CtxSeen int // 0 no ctx param, 1 the directive's context, 2 another context, 3 the poisoned context of a Bare program
 	CtxDone bool
 	Ctx     context.Context // the context the function was handed (kept so that its state can be read at quiescence)
 }
@@ -145,6 +146,67 @@ type Exec struct {
 	BadStates   atomic.Int64
 	startCh     map[int]chan struct{} // closed when the function is first entered
 	startOnce   map[int]*sync.Once
+
+	// Bare programs: poison runs once, when the first user function is entered.
+	poison     func()
+	poisonOnce sync.Once
+	Poisoned   atomic.Bool
+	dummies    []interface{} // pointers handed out by PoisonPtr
+}
+
+// SetPoison registers the assignments that overwrite the argument variables of
+// a Bare program.
+func (x *Exec) SetPoison(f func()) {
+	if !x.Quiet {
+		x.poison = f
+	}
+}
+
+func (x *Exec) runPoison() {
+	if x.poison != nil {
+		x.poisonOnce.Do(func() {
+			x.poison()
+			x.Poisoned.Store(true)
+		})
+	}
+}
+
+// Poison returns the poison token of an argument site.
+func (x *Exec) Poison(site int) uint64 { return prog.PoisonTok(x.ID, site) }
+
+// PoisonColl is a one-element collection holding a poison token.
+func (x *Exec) PoisonColl(site int) []uint64 { return []uint64{prog.PoisonTok(x.ID, site)} }
+
+// PoisonEmitter is the number of the emitter that poisoned WithEmitter
+// arguments hold.
+const PoisonEmitter = 99
+
+type poisonKey struct{}
+
+// PoisonCtx is the directive's context marked as poisoned.
+func PoisonCtx(x *Exec) context.Context { return context.WithValue(x.ctx, poisonKey{}, true) }
+
+// PoisonPtr returns a pointer to a fresh variable of p's element type; a
+// result stored through it is seen by DummiesWritten.
+func PoisonPtr[T any](x *Exec, p *T) *T {
+	d := new(T)
+	x.mu.Lock()
+	x.dummies = append(x.dummies, d)
+	x.mu.Unlock()
+	return d
+}
+
+// DummiesWritten reports how many poisoned Results pointers were stored through.
+func (x *Exec) DummiesWritten() int {
+	x.mu.Lock()
+	defer x.mu.Unlock()
+	n := 0
+	for _, d := range x.dummies {
+		if !reflect.ValueOf(d).Elem().IsZero() {
+			n++
+		}
+	}
+	return n
 }
 
 // Started returns a channel that is closed when function fn is first entered
@@ -329,11 +391,15 @@ func (x *Exec) Call(ctx context.Context, fn int, args ...uint64) *Ret {
 		return x.quietCall(ctx, fn, key, f, o, args)
 	}
 	ev := &CallEv{Fn: fn, Args: append([]uint64(nil), args...)}
+	x.runPoison()
 	if ctx != nil {
 		if v, ok := ctx.Value(execKey{}).(*Exec); ok && v == x {
 			ev.CtxSeen = 1
 		} else {
 			ev.CtxSeen = 2
+		}
+		if ctx.Value(poisonKey{}) != nil {
+			ev.CtxSeen = 3
 		}
 		ev.CtxDone = ctx.Err() != nil
 		ev.Ctx = ctx
